@@ -1,6 +1,7 @@
 #!/bin/sh
 # run every check once on the current tree (quick tier unless VERIF_TIER is set), sequentially
 cd "$(dirname "$0")/.."
-for p in C01 C02 C03 C04 C05 C06 C07 C08 C09 C10 C11 C12 C13 C14 C15 C16 C17 C18 C19 C20; do
-  tools/vcheck.py $p > .work/run_$p.log 2>&1; echo "$p exit=$? $(tail -1 .work/run_$p.log)"
+T=${VERIF_TIER:-quick}
+for p in ${*:-C01 C02 C03 C04 C05 C06 C07 C08 C09 C10 C11 C12 C13 C14 C15 C16 C17 C18 C19 C20}; do
+  tools/vcheck.py $p --tier $T > .work/run_${T}_$p.log 2>&1; echo "$p exit=$? $(tail -1 .work/run_${T}_$p.log)"
 done
